@@ -9,7 +9,7 @@ export GOFLAGS=-mod=mod GOPROXY=off
 V=$(cd "$(dirname "$0")/.." && pwd)
 tag=$(basename "$wt")
 cd "$wt" || exit 2
-git checkout -q -- . ; rm -f "$dest"
+git checkout -q -- . ; [ "$dest" = "-" ] || rm -f "$dest"
 demo=$(ls seed/$n/demo_test.go seed/$n/demo/main.go 2>/dev/null | head -1)
 git apply seed/$n/patch.diff || { echo "VERIFY $tag/$n: patch does not apply"; exit 1; }
 go build ./... || { echo "VERIFY $tag/$n: build fails"; git checkout -q -- .; exit 1; }
@@ -18,11 +18,11 @@ go test -json -vet=off -count=1 -timeout 25m ./... > /tmp/verify-$tag-$n.json 2>
 if ! python3 "$V/tools/baseline_cmp.py" /tmp/verify-$tag-$n.json > /tmp/verify-$tag-$n.cmp; then
   echo "VERIFY $tag/$n: existing suite does NOT pass with the change:"; cat /tmp/verify-$tag-$n.cmp; git checkout -q -- .; exit 1
 fi
-mkdir -p "$(dirname "$dest")"; cp "$demo" "$dest"
+[ "$dest" = "-" ] || { mkdir -p "$(dirname "$dest")"; cp "$demo" "$dest"; }
 go test -vet=off -count=1 "$@" > /tmp/verify-$tag-$n.with 2>&1; rc_with=$?
 git checkout -q -- .
 go test -vet=off -count=1 "$@" > /tmp/verify-$tag-$n.without 2>&1; rc_without=$?
-rm -f "$dest"
+[ "$dest" = "-" ] || rm -f "$dest"
 if [ $rc_with -ne 0 ] && [ $rc_without -eq 0 ]; then
   out="$V/seeded/$prop-$tag-$n"; mkdir -p "$out"
   cp seed/$n/patch.diff "$out/patch.diff"; cp "$demo" "$out/$(basename $demo)"; cp seed/$n/notes.md "$out/notes.md" 2>/dev/null
